@@ -865,6 +865,28 @@ class LuaASTEchoWriter(BaseLuaWriter):
         for t in self._walk(node.exp):
             yield t
 
+    def _then_keyword(self):
+        """Gets the keyword that ends the condition of an if statement.
+
+        The parser accepts "if (cond) do" for carts that exploit PICO-8's
+        short-if loophole. The keyword is written the way the cart has it.
+
+        Returns:
+          b'do' if the next code token is the keyword do, otherwise b'then'.
+        """
+        if self._args.get('ignore_tokens'):
+            return b'then'
+        pos = self._pos
+        while (pos < len(self._tokens) and
+               isinstance(self._tokens[pos], (lexer.TokSpace,
+                                              lexer.TokNewline,
+                                              lexer.TokComment))):
+            pos += 1
+        if (pos < len(self._tokens) and
+                self._tokens[pos].matches(lexer.TokKeyword(b'do'))):
+            return b'do'
+        return b'then'
+
     def _walk_StatIf(self, node):
         # The ignore_tokens hack screws up spacing, so convert short ifs to
         # long ifs.
@@ -889,7 +911,7 @@ class LuaASTEchoWriter(BaseLuaWriter):
                 else:
                     for t in self._walk(exp):
                         yield t
-                    yield self._get_text(node, b'then')
+                    yield self._get_text(node, self._then_keyword())
                     self._indent += 1
                 for t in self._walk(block):
                     yield t
